@@ -16,7 +16,7 @@
   derived from Rust's semantics here: `runFaultyFrom` *defines* that an error stops the run at once
   iff every site on the failing call's stack is classified as propagating (`q`, `tail`, `ret`,
   `bound_q`, `match_ret`, `tryclosure` — see tools/tr_drawsites.py for the syntactic conditions and
-  tools/tests/drawsites_cases.rs for the forms that were validated against a fault-injecting
+  tools/tests/drawsites_cases*.rs for the forms that were validated against a fault-injecting
   target). That the real `draw` behaves like this interpreter is what the fault enumeration on the
   real code (harness module `faults`) checks; it is not proved.
 -/
